@@ -3,8 +3,8 @@ package main
 import (
 	"fmt"
 	"go/token"
-	"math/big"
 	"go/types"
+	"math/big"
 
 	"golang.org/x/tools/go/ssa"
 )
@@ -727,7 +727,6 @@ func (it *Interp) copyOp(dst, src Val) Val {
 	return nil
 }
 
-
 // abstractArith: multiplication / division / remainder of two symbolic words is replaced by an uninterpreted
 // function with the basic facts the targets rely on (bit-blasting these at 64 bits does not terminate in z3).
 // This over-approximates: it can only add behaviours, never hide one; listed in the evidence as an abstraction.
@@ -769,7 +768,6 @@ func (it *Interp) abstractArith(kind string, x, y *Term, sg bool) *Term {
 }
 
 func itoa(i int) string { return fmt.Sprint(i) }
-
 
 // divByConst encodes x / c and x % c (c a small positive constant, x >= 0) as q, r with x = c*q + r, r < c, q <= x:
 // a multiplication by a constant instead of a 64-bit divider circuit. Exact under the side conditions it asserts.
